@@ -390,3 +390,77 @@ theorem run_caseK_shape (P : Prims) (O : OutPrims) (cfg : Cfg) (fs : FS) (fuel :
           (line + countNL ((tg nmCase s w0).spell (Delims.ofList cfg.delims)) + countNL (spell (Delims.ofList cfg.delims) J)))] env := by
   rw [run_spell P O cfg fs fuel _ line env hg hc, caseK_compile _ line s w0 J rest wE subj hp hJ hrest]
   rfl
+
+/-! ## A `when` clause whose arguments are not a value list -/
+
+theorem caseClause_head (d : Delims) (c : Clause) (l : Nat) (hc : c.whenOk = true) (ns : List Node) (cs : List (Token × List Node)) :
+    compileCaseClauses ((c.tokK d nmWhen l, ns) :: cs) =
+      (compileCaseClauses cs).bind (fun rest => .ok ((c.whenAt l, ns) :: rest)) := by
+  simp only [compileCaseClauses, bind, pure]
+  unfold Clause.whenOk at hc
+  unfold Clause.tokK Clause.whenAt
+  cases hcc : c.cond with
+  | none => rfl
+  | some t =>
+    rw [hcc] at hc
+    simp only at hc ⊢
+    have hn : ((tgTok d nmWhen t c.w l).name == nmWhen) = true := by
+      show (nmWhen == nmWhen) = true
+      decide
+    have ha : (tgTok d nmWhen t c.w l).args = t := rfl
+    have hl : (tgTok d nmWhen t c.w l).line = l := rfl
+    cases hp : parseStatement kwWhen t with
+    | ok st =>
+      rw [hp] at hc
+      cases st with
+      | when es => simp only [hn, if_true, ha, hl, hp, liftParse, Res.bind]
+      | expr e => cases hc
+      | assign x e => cases hc
+      | cycle g f r => cases hc
+      | loop x e m => cases hc
+    | err e => rw [hp] at hc; cases hc
+    | panic w => rw [hp] at hc; cases hc
+    | unmodelled w => rw [hp] at hc; cases hc
+
+/-- the clause arguments are compiled in order: the first `when` whose arguments do not parse is the error, at its line -/
+theorem caseClauses_pairs_bad (d : Delims) (sel : Clause) (post : List Clause) (t : Bytes) (x : ParseErr)
+    (hsel : sel.cond = some t) (hbad : parseStatement kwWhen t = .err x) : ∀ (pre : List Clause) (l : Nat),
+    (∀ c ∈ pre, c.whenOk = true) →
+    compileCaseClauses (clausePairs d nmWhen (pre ++ sel :: post) l) =
+      .err ⟨l + countNL (spell d (clauseItemsK nmWhen pre)), true, .syntax, .byCause⟩
+  | [], l, _ => by
+    have hn : ((tgTok d nmWhen t sel.w l).name == nmWhen) = true := by
+      show (nmWhen == nmWhen) = true
+      decide
+    have ha : (tgTok d nmWhen t sel.w l).args = t := rfl
+    have hl : (tgTok d nmWhen t sel.w l).line = l := rfl
+    simp only [List.nil_append, clausePairs, compileCaseClauses, Clause.tokK, hsel, hn, if_true, ha, hl, hbad, liftParse, bind,
+      Res.bind, clauseItemsK, spell, countNL, List.foldl_nil, Nat.add_zero]
+    rfl
+  | c :: r, l, h => by
+    simp only [List.cons_append, clausePairs]
+    rw [caseClause_head d c l (h c (List.mem_cons_self ..)),
+      caseClauses_pairs_bad d sel post t x hsel hbad r _ (fun y hy => h y (List.mem_cons_of_mem _ hy))]
+    simp only [Res.bind, clauseItemsK, spell_cons, spell_append, countNL_append, Nat.add_assoc]
+
+theorem compileNode_caseK_err (o : Token) (ast : List AST) (cast : List (Token × List AST)) (nb : List Node)
+    (cs : List (Token × List Node)) (subj : Expr) (e : SErr) (hn : o.name = nmCase)
+    (hb : compileList ast = .ok nb) (hc : compileClauses cast = .ok cs) (hs : parseExprSource o.args = .ok subj)
+    (ht : compileCaseClauses cs = .err e) :
+    compileNode (.block o ast cast) = .err e := by
+  have h1 : (o.name == nmIf || o.name == nmUnless) = false := by rw [hn]; decide
+  have h2 : (o.name == nmCase) = true := by rw [hn]; decide
+  simp only [compileNode, hb, hc, bind, Res.bind, h1, h2, Bool.false_eq_true, if_false, if_true, hs, liftParse, ht]
+
+theorem caseK_compile_bad (d : Delims) (line : Nat) (s : Bytes) (w0 : Ws) (J : List Item) (pre : List Clause) (sel : Clause)
+    (post : List Clause) (wE : Ws) (subj : Expr) (t : Bytes) (x : ParseErr)
+    (hp : parseExprSource s = .ok subj) (hJ : Compiles d J 0) (hbodies : ∀ c ∈ pre ++ sel :: post, Compiles d c.body 0)
+    (hpre : ∀ c ∈ pre, c.whenOk = true) (hsel : sel.cond = some t) (hbad : parseStatement kwWhen t = .err x) :
+    compileTokens (tokensOf d (caseChainSrc s w0 J (pre ++ sel :: post) wE) line) =
+      .err ⟨line + countNL ((tg nmCase s w0).spell d) + countNL (spell d J) + countNL (spell d (clauseItemsK nmWhen pre)),
+        true, .syntax, .byCause⟩ := by
+  obtain ⟨ast, cast, h1, h2, h3⟩ := blockK_compile d nmWhen nmCase s w0 J (pre ++ sel :: post) wE line
+    (by decide) (by decide) (by decide) hJ hbodies (fun c _ l => caseK_admits _ s w0 line c l)
+  unfold caseChainSrc
+  rw [h3, compileNode_caseK_err _ ast cast _ _ subj _ rfl h1 h2 hp
+    (caseClauses_pairs_bad d sel post t x hsel hbad pre _ hpre)]
